@@ -156,10 +156,15 @@ func hConcShape(zw *Writer, shape int, a, b []byte, sink2 *hSink, rfail int) (r 
 		r.blocks = 3
 	case 9: // one full block and a tail through Write
 		big := hPattern(65536+len(a), 3)
+		r.want = append([]byte{}, big...)
 		_, err := zw.Write(big)
 		note(err)
+		// Once Write has returned the slice is the caller's again (io.Writer: "must not retain p"):
+		// reuse it while the block goroutines may still be at work.
+		big[0] ^= 0xFF
+		big[65535] ^= 0xFF
+		big[65536] ^= 0xFF
 		note(zw.Close())
-		r.want = big
 		r.blocks = 2
 	case 13: // one full block and a tail through ReadFrom
 		big := hPattern(65536+len(a), 5)
